@@ -92,6 +92,12 @@ Theorem C06_command_failure_is_contained : forall lc g hs1 h hs2 st tr st1 tr1 s
   run_all g lc (hs1 ++ TCmd h :: hs2) st tr = run_all g lc hs2 st2 tr2.
 Proof. exact command_failure_is_contained. Qed.
 
+(* acyclic programs terminate: when every lifecycle handler of an item only modifies items of lower rank, every
+   handler runs to completion or failure - no endless cascade (and, with the first theorem, run_handler stops) *)
+Theorem C06_acyclic_programs_terminate : forall lc rank, stratified lc rank ->
+  forall r h, modifies_below rank r h -> forall st tr, exists f res, eval f lc h st tr = Some res.
+Proof. exact acyclic_programs_terminate. Qed.
+
 (* a concrete cascade: setting lane 1 (whose on_event sets lane 0, whose on_set records an effect) *)
 Example C06_nonvacuous :
   let lc := mk_lc [(1, HSetV 0 5%Z)] [(0, HRecord (EEff 7))] [] [] [] in
